@@ -2,5 +2,5 @@ CONSTANTS Mags = {1, 2} Pages <- PagesA Rows = {1, 24} Cids = {1, 2} Flofs = {1}
 SPECIFICATION Spec
 CONSTRAINT Bounded
 INVARIANTS OneVersion OnlyTransmitted
-PROPERTIES KeepsRows
+PROPERTIES KeepsRows BadRowContained
 CHECK_DEADLOCK FALSE
